@@ -66,7 +66,7 @@ class G:
             return ('aset', 'arr', rng.choice(['"a"', '"b"', 'key']), self.arith(1, locals_))
         if r < 0.9:
             return ('aget', rng.choice(self.vars), 'arr', rng.choice(['"a"', '"b"', 'key']))
-        return ('print', [rng.choice([('str', rng.choice(['x=', 'a b', 't\\t', 'q\\"q', 'nl\\n', '', 'bs\\\\\\"q', 'e\\\\'])), self.arith(1, locals_)]) for _ in range(rng.randrange(1, 4))])
+        return ('print', [rng.choice([('str', rng.choice(['x=', 'a b', 't\\t', 'q\\"q', 'nl\\n', '', 'bs\\\\\\"q', 'e\\\\', 'C:\\\\temp', '\\\\n', 'x\\\\ry\\\\\\"'])), self.arith(1, locals_)]) for _ in range(rng.randrange(1, 4))])
 
     def program(self):
         rng = self.rng
